@@ -38,6 +38,12 @@ def run(ctx):
         ctx.broke("correspondence", "row-level evaluation of safe_macro_asserts_ok", out[-600:])
         bad_macros = []
 
+    # what the kernels behind an ACCEPTED call touch: the symbolic run of the REAL generic kernels (every lane count, every
+    # length residue; correspondence A), read for accesses outside the slices only - a merely different structure is C07's
+    # business, an out-of-slice access is a concrete failing input of this property too
+    from checks import symrun
+    symrun.run(ctx, bounds_only=True)
+
     entries = list(enumerate(facts.get("safe_entries", [])))
     lens = [0, 3, 17] if ctx.tier == "quick" else [0, 1, 3, 8, 17, 33, 65, 130]
     configs = [("stable", [0, 2, 4]), ("debug", [0]), ("nightly", [0])] if ctx.tier == "quick" else \
